@@ -17,6 +17,12 @@ def _short_reads(e, cap=13):
     return e
 
 
+def _shared(e, keep, why):
+    """an engine of another property run for this one: only the findings matching `keep` count here"""
+    e = dict(e, side=True, keep=keep, why=why)
+    return e
+
+
 def _rayon(n):
     return {"RAYON_NUM_THREADS": str(n)}
 
@@ -58,7 +64,10 @@ PLAN = {
     },
     "C09": {
         "level": "fault_enumeration",
-        "engines": lambda tier: [_e("release", "crashmc", "c09", also_build=[("shim", "faultfs")])],
+        "engines": lambda tier: [
+            _e("release", "crashmc", "c09", also_build=[("shim", "faultfs")]),
+            _shared(_e("release", "packmc", "c10"), r"destination-name", "the fault-free end of C09 (the destination holds a complete container that opens, verifies and reads as created, or nothing) for 14 destination file names x 3 packagings"),
+        ],
         "assumptions": [
             "crash = process termination (kill at a write call after a partial write); power loss / page-cache loss is excluded by the property",
             "faults are injected by an LD_PRELOAD shim on write/pwrite/writev (copy_file_range/sendfile/splice are refused so that std falls back to write); renames are raw syscalls the shim cannot see: they are faulted through strace syscall tampering (k-th rename of a thread: EIO, ENOENT, SIGKILL on entry)",
@@ -93,7 +102,10 @@ PLAN = {
     },
     "C11": {
         "level": "fault_enumeration",
-        "engines": lambda tier: [_e("release", "packmc", "c11"), dict(_short_reads(_e("release", "packmc", "c11")), side=True)],
+        "engines": lambda tier: [
+            _e("release", "packmc", "c11"), dict(_short_reads(_e("release", "packmc", "c11")), side=True),
+            _shared(_e("release", "packmc", "c10"), r"placed|partial-concat|decoy|symlinked|multibyte|reverse order", "second half of C11 (every pack that IS available - found through its recorded location, wherever its file lies - still reads) over the placements of the C10 enumeration"),
+        ],
         "assumptions": [
             "faults = unavailability of content packs: removed / replaced by a directory / replaced by a different valid pack; other damage of pack files is C05/C06's subject",
             "environment answer: the whole enumeration is repeated with every read(2) on a pack file returning at most 13 bytes (LD_PRELOAD shim shim/shortread.c; a probe read proves the shim is in the process); other short-read sizes and interrupted reads are not enumerated",
@@ -101,7 +113,12 @@ PLAN = {
     },
     "C04": {
         "level": "fault_enumeration",
-        "engines": lambda tier: [_e("release", "faultmc", "c04", also_build=[("release", "codec")])],
+        "engines": lambda tier: [
+            _e("release", "faultmc", "c04", also_build=[("release", "codec")]),
+            _shared(_e("release", "packmc", "c10"), r"check|does not open|creation failed|does not verify", "first sentence of C04 (every container the creator produces opens and passes its own integrity check) over every packaging, placement, destination name and prefix of the C10 enumeration"),
+            _shared(_e("release", "packmc", "c11"), r"check\(\)|does not open", "first sentence of C04 over containers whose pack ids are not 1..n and whose manifest lists the packs in every order"),
+            _shared(_e("release", "locmc", "c12", "--shards", "4", tier="quick"), r"check fails|CRC does not hold|does not open", "last sentence of C04 (the rewritable locations are the only exempt bytes): after every history of location rewrites every checksum still verifies"),
+        ],
         "assumptions": [
             "which bytes a checksum covers comes from the harness's independent decoder (own CRC-32C, layout tables), not from the library",
             "containers are small (0.4-7 KB); quick: 8 containers, thorough: 26 containers plus pairs of positions on the small ones",
@@ -134,7 +151,11 @@ PLAN = {
     },
     "C01": {
         "level": "model_checking",
-        "engines": lambda tier: [_e("release", "seqmc", "c01", "--shards", "4")],
+        "engines": lambda tier: [
+            _e("release", "seqmc", "c01", "--shards", "4"),
+            _shared(_e("release", "viewmc", "c13"), r".", "C01 through every way of looking at a stored content: stream, slices, nested cuts and conversions of a content obtained from a pack all yield the stored bytes"),
+            _shared(_e("release", "packmc", "c11"), r"no such pack|available pack reads differently|does not open", "C01 at addresses whose pack id is not 1..n: every address the creator returned resolves to its content"),
+        ],
         "assumptions": [
             "content lengths come from a boundary alphabet (0,1,255,256,65535,65536, 4 MiB-1/4 MiB/4 MiB+1, 16 MiB+1); payload bytes are seeded patterns (low/high entropy)",
             "the creator runs with 3 compression workers (process pinned to 4 CPUs); worker scheduling itself is C08's subject",
